@@ -15,6 +15,9 @@ def main : IO Unit := do
     | "I" :: "repeat" :: _ =>
       out.putStrLn ln.trimAscii.toString
       out.putStrLn "O repeat 1"
+    | "I" :: "aux" :: _ =>
+      out.putStrLn ln.trimAscii.toString
+      out.putStrLn "O aux 1"
     | "I" :: "fork" :: _ =>
       out.putStrLn ln.trimAscii.toString
       out.putStrLn "O fork 1"
